@@ -8,6 +8,7 @@ RULE = ("stores built from the C13 record pool plus records with hostile owner n
         "truncation and length corruption of valid queries and responses, valid packets with non-UTF-8 / NUL / dotted / maximal "
         "labels both as questions and as announced records, responses with and without the RESPONSE flag, seeded random bytes; "
         "interleaved with valid traffic. Oracle: no PANIC/HANG; every reply produced parses. non-trivial = datagram accepted by some pipeline")
+CASE_SECS = 20
 CANNOT_EXHIBIT = ["the receive threads, RwLock poisoning and multicast sockets themselves: the loop bodies are driven through the "
                   "cfg(simple_dns_verif) wrappers; a panic there is what would kill the thread / poison the lock",
                   "the tokio (async) twins of the sync services (same build_reply, store and codec; their own glue is not driven)"]
@@ -50,9 +51,60 @@ def cases(rng, tier):
                     ms = dns.malformations(b, marks, rng, budget=6)
                     b = rng.choice(ms) if ms else b
                 dgrams.append(b)
+        if k % 10 == 0:
+            # pointer graphs through the header: the question name points at the id field, which is itself a pointer
+            for idb, nameb in ((b"\xc0\x00", b"\xc0\x00"), (b"\xc0\x02", b"\xc0\x00"), (b"\xc0\x0c", b"\xc0\x00"), (b"\x01\x61", b"\xc0\x00")):
+                dgrams.append(idb + b"\x00\x00\x00\x01\x00\x00\x00\x00\x00\x00" + nameb + b"\x00\x01\x00\x01")
+            # a response whose second owner name points into the first record's RDATA, which points to itself
+            dgrams.append(b"\x00\x01\x84\x00\x00\x00\x00\x02\x00\x00\x00\x00" + b"\x01a\x00\x00\x01\x00\x01\x00\x00\x00\x78\x00\x04\xc0\x19\x00\x00"
+                          + b"\xc0\x19\x00\x01\x00\x01\x00\x00\x00\x78\x00\x04\x01\x02\x03\x04")
+        if k % 7 == 0:
+            # announced instances with 63-byte labels that are not UTF-8 (their lossy rendering is longer than 63 bytes)
+            for lab in (b"a" + b"\xff" * 62, b"\xff" * 63, b"ab" + b"\xff" * 61, b"\xe2\x82" * 31 + b"a", b"\xf0\x9f\x98" * 21):
+                p = pC13.query_pkt(rng.below(65536), [])
+                p["flags"] = 0x8400
+                p["ans"] = [dict(rng.choice(P), name=[lab] + SVC), {"name": [lab] + SVC, "class": 1, "ttl": 120, "cf": False,
+                            "rdata": ("T", "TXT", [("L", [(0, b"k=v")])])}]
+                b, _ = dns.encode_marked(p, rng, 0)
+                dgrams.append(b)
         for d in dgrams:
             toks += ["D"] + dns.name_toks(SVC) + dns.name_toks(ME) + [d.hex() or "-"]
         toks += ["K"] + dns.name_toks(SVC)
+        out.append("STORE " + " ".join(toks))
+    # replies larger than 16 KiB: a store of address records under one service whose sorted order puts a two-new-label name
+    # at offset 16384 - k, followed by a name sharing only its later suffix
+    base = [b"_s", b"_tcp", b"local"]
+    for kk in ((0, 3, 5, 8) if tier == "quick" else range(0, 12)):
+        target = 16384 - kk
+        sol = None
+        for b3 in range(0, 21):
+            first = (1 + 3 if b3 else 1 + 4) + 15 + 14          # the first record carries the full owner name
+            rest3, rest4 = 1 + 3 + 2 + 14, 1 + 4 + 2 + 14
+            n3 = b3 - 1 if b3 else 0
+            rem = target - 12 - first - n3 * rest3
+            if rem >= 0 and rem % rest4 == 0 and b3 + (rem // rest4 - (0 if b3 else 0)) > 0:
+                a4 = rem // rest4 if b3 else rem // rest4
+                sol = (b3, a4 if b3 else a4 + 1)
+                break
+        if sol is None:
+            continue
+        b3, a4 = sol
+        toks = []
+        i = 0
+        for j in range(b3):
+            toks += ["AA"] + dns.rr_toks({"name": [b"q%02d" % j] + base, "class": 1, "ttl": 120, "cf": False, "rdata": ("T", "A", [("I", i)])})
+            i += 1
+        for j in range(a4):
+            toks += ["AA"] + dns.rr_toks({"name": [b"p%03d" % j] + base, "class": 1, "ttl": 120, "cf": False, "rdata": ("T", "A", [("I", i)])})
+            i += 1
+        for nm in ([b"xxxx", b"zzzzz"] + base, [b"yyyyy", b"zzzzz"] + base):
+            toks += ["AA"] + dns.rr_toks({"name": nm, "class": 1, "ttl": 120, "cf": False, "rdata": ("T", "A", [("I", i)])})
+            i += 1
+        # the service name itself is registered (as ServiceDiscovery does), so the trie has a node at the queried key
+        toks += ["AA"] + dns.rr_toks({"name": base, "class": 1, "ttl": 120, "cf": False, "rdata": ("T", "TXT", [("L", [(0, b"x")])])})
+        q = pC13.query_pkt(77, [{"name": base, "qtype": 1, "qclass": 1, "uni": False}])
+        b, _ = dns.encode_marked(q, rng, 0)
+        toks += ["D"] + dns.name_toks(SVC) + dns.name_toks(ME) + [b.hex()]
         out.append("STORE " + " ".join(toks))
     return out
 
